@@ -24,6 +24,13 @@ try:
         except Exception:
             pass
     print("   kinds:", kinds)
+    try:
+        ev = json.load(open("/verif/evidence/%s.json" % prop))
+        print("   broken obligations/ties:", [(b.get("kind"), b.get("name")) for b in ev["coverage"].get("broken", [])])
+        print("   correspondence disagreements:", {c["kernel"]: c["disagreement_count"] for c in ev["coverage"].get("correspondence", [])})
+    except Exception as e:
+        print("   (no evidence)", e)
+    subprocess.run(["git", "-C", "/verif", "checkout", "--", "evidence/%s.json" % prop])
     for v in viol[:4]:
         print("  ", v)
         path = v.split("replay=")[1].split()[0]
